@@ -26,11 +26,10 @@ import (
 type failoverServer struct {
 	mu        sync.Mutex
 	n         int
-	current   string                     // id of the latest state handed to the client
-	snapshots map[string]map[string]bool // id -> "table/uuid" present at that id
-	pending   map[string]string          // session/request id -> id the client asked with
+	current   string                                // id of the latest state handed to the client
+	snapshots map[string]map[string]map[string]bool // id -> "table/uuid" -> the row's tags at that id
+	pending   map[string]string                     // session/request id -> id the client asked with
 	remember  bool
-	rows      func() map[string]bool // the database now
 	Log       []string
 }
 
@@ -65,17 +64,27 @@ func (s *failoverServer) rewrite(session int, toClient bool, raw json.RawMessage
 		if json.Unmarshal(msg["params"], &params) == nil && len(params) == 2 {
 			id := s.fresh()
 			// the state after this notification: computed from the notification itself
-			snap := map[string]bool{}
-			for k := range s.snapshots[s.current] {
-				snap[k] = true
+			snap := map[string]map[string]bool{}
+			for k, tg := range s.snapshots[s.current] {
+				snap[k] = copyTags(tg)
 			}
 			var tu map[string]map[string]map[string]json.RawMessage
 			_ = json.Unmarshal(params[1], &tu)
 			for t, rows := range tu {
 				for u, ru := range rows {
-					if _, ok := ru["insert"]; ok {
-						snap[t+"/"+u] = true
-					} else if _, ok := ru["modify"]; !ok {
+					if ins, ok := ru["insert"]; ok {
+						snap[t+"/"+u] = tagsOf(ins)
+					} else if mod, ok := ru["modify"]; ok {
+						cur := copyTags(snap[t+"/"+u])
+						for e := range tagsOf(mod) { // a set difference: what is there goes, what is not comes
+							if cur[e] {
+								delete(cur, e)
+							} else {
+								cur[e] = true
+							}
+						}
+						snap[t+"/"+u] = cur
+					} else {
 						delete(snap, t+"/"+u)
 					}
 				}
@@ -104,10 +113,10 @@ func (s *failoverServer) rewrite(session int, toClient bool, raw json.RawMessage
 	if json.Unmarshal(res[2], &all) != nil {
 		return raw
 	}
-	now := map[string]bool{}
+	now := map[string]map[string]bool{}
 	for t, rows := range all {
-		for u := range rows {
-			now[t+"/"+u] = true
+		for u, ru := range rows {
+			now[t+"/"+u] = tagsOf(ru["initial"])
 		}
 	}
 	id := s.fresh()
@@ -128,17 +137,36 @@ func (s *failoverServer) rewrite(session int, toClient bool, raw json.RawMessage
 		}
 		delta[t][u] = ru
 	}
-	ins, del := 0, 0
+	ins, del, mod := 0, 0, 0
 	for t, rows := range all {
 		for u, ru := range rows {
-			if !old[t+"/"+u] {
+			was, had := old[t+"/"+u]
+			if !had {
 				put(t, u, map[string]json.RawMessage{"insert": ru["initial"]})
 				ins++
+				continue
+			}
+			var diff []string
+			for e := range was {
+				if !now[t+"/"+u][e] {
+					diff = append(diff, e)
+				}
+			}
+			for e := range now[t+"/"+u] {
+				if !was[e] {
+					diff = append(diff, e)
+				}
+			}
+			if len(diff) > 0 {
+				sort.Strings(diff)
+				dj, _ := json.Marshal(map[string]interface{}{"tags": []interface{}{"set", diff}})
+				put(t, u, map[string]json.RawMessage{"modify": dj})
+				mod++
 			}
 		}
 	}
 	for k := range old {
-		if !now[k] {
+		if _, still := now[k]; !still {
 			for i := 0; i < len(k); i++ {
 				if k[i] == '/' {
 					put(k[:i], k[i+1:], map[string]json.RawMessage{"delete": json.RawMessage("null")})
@@ -150,8 +178,39 @@ func (s *failoverServer) rewrite(session int, toClient bool, raw json.RawMessage
 	dj, _ := json.Marshal(delta)
 	nr, _ := json.Marshal([]json.RawMessage{json.RawMessage("true"), idj, dj})
 	msg["result"] = nr
-	s.Log = append(s.Log, fmt.Sprintf("reply found=true since=%s id=%s (%d inserted, %d deleted since)", asked, id, ins, del))
+	s.Log = append(s.Log, fmt.Sprintf("reply found=true since=%s id=%s (%d inserted, %d modified, %d deleted since)", asked, id, ins, mod, del))
 	out, _ := json.Marshal(msg)
+	return out
+}
+
+func copyTags(m map[string]bool) map[string]bool {
+	out := map[string]bool{}
+	for k := range m {
+		out[k] = true
+	}
+	return out
+}
+
+// tagsOf: the "tags" column of a row in OVS notation (a string, or ["set", [...]])
+func tagsOf(row json.RawMessage) map[string]bool {
+	out := map[string]bool{}
+	var r map[string]json.RawMessage
+	if json.Unmarshal(row, &r) != nil {
+		return out
+	}
+	var one string
+	if json.Unmarshal(r["tags"], &one) == nil {
+		out[one] = true
+		return out
+	}
+	var set []json.RawMessage
+	if json.Unmarshal(r["tags"], &set) == nil && len(set) == 2 {
+		var es []string
+		_ = json.Unmarshal(set[1], &es)
+		for _, e := range es {
+			out[e] = true
+		}
+	}
 	return out
 }
 
@@ -164,7 +223,8 @@ func c16Failover(r *Run, h int) {
 	rng := r.Rng
 	spec := SchemaSpec{Name: "db", Tables: []TableSpec{{Name: "T", IsRoot: true, Cols: []ColSpec{
 		{Name: "name", Type: ColType{Kind: "atom", Key: "string", Min: 1, Max: 1}},
-		{Name: "n", Type: ColType{Kind: "atom", Key: "integer", Min: 1, Max: 1}}}}}}
+		{Name: "n", Type: ColType{Kind: "atom", Key: "integer", Min: 1, Max: 1}},
+		{Name: "tags", Type: ColType{Kind: "set", Key: "string", Min: 0, Max: -1}}}}}}
 	ts := TxnSchema{Spec: spec, Specs: map[string][]ISpec{"T": {}}}
 	rig, err := newRig(ts)
 	if err != nil {
@@ -178,7 +238,7 @@ func c16Failover(r *Run, h int) {
 		return
 	}
 	defer px.Close()
-	srv := &failoverServer{snapshots: map[string]map[string]bool{}, pending: map[string]string{}}
+	srv := &failoverServer{snapshots: map[string]map[string]map[string]bool{}, pending: map[string]string{}}
 	px.rewrite = srv.rewrite
 	cs := &failoverCase{}
 	fail := func(impl, want, why string) {
@@ -200,7 +260,14 @@ func c16Failover(r *Run, h int) {
 	commit := func(what string) {
 		k := 1 + rng.Intn(2)
 		for ; k > 0; k-- {
-			if len(live) > 1 && rng.Intn(3) == 0 {
+			if len(live) > 0 && rng.Intn(3) == 0 {
+				// a change of a set column: its notification is a difference (applied twice, it undoes itself)
+				u := live[rng.Intn(len(live))]
+				tag := fmt.Sprintf("g%d", rng.Intn(3))
+				mut := []string{"insert", "delete"}[rng.Intn(2)]
+				_, _ = writer.Transact(ctx, OperationJ{Op: "mutate", Table: "T", Where: byUUID(u), Mutations: []MutationJ{{Col: "tags", Mutator: mut, Val: VS(AS(tag))}}}.toOvs())
+				cs.Steps = append(cs.Steps, fmt.Sprintf("%s: %s tag %s of %s", what, mut, tag, u))
+			} else if len(live) > 1 && rng.Intn(3) == 0 {
 				i := rng.Intn(len(live))
 				u := live[i]
 				live = append(live[:i], live[i+1:]...)
@@ -279,7 +346,21 @@ func c16Failover(r *Run, h int) {
 		if rng.Intn(4) != 0 {
 			commit("while away")
 		}
+		// sometimes a transaction is committed between the reply of the restarted monitor and its application:
+		// its notification is held back, applied after the reply, and its id is the one to ask with next time
+		var pp *pausePoint
+		if rng.Intn(2) == 0 {
+			pp = pauses.arm("monitor.reply-received")
+		}
 		px.block(false)
+		if pp != nil {
+			if pp.waitReached(5 * time.Second) {
+				commit("between the reply and its application")
+				time.Sleep(10 * time.Millisecond) // (the notification reaches the client, which holds it back)
+			}
+			pp.Release()
+			pauses.disarm("monitor.reply-received")
+		}
 		for try := 0; try < 3000 && px.sessionCount() == sessions; try++ {
 			time.Sleep(time.Millisecond)
 		}
